@@ -307,8 +307,61 @@ def run_dsacc(it):
     return res
 
 
+MISSING_OPS = None  # every operation of the table except the partition methods (the watershed has no notion of a missing bin)
+
+
+def run_missing(it):
+    """Datasets with missing values: a land point (all-NaN spectrum) stored FIRST and a spectrum with one masked interior bin. Every
+    position of the batch result must equal the result on that spectrum alone, and masking must not leak to other positions."""
+    common.load_wavespectra()
+    dims, sizes = tuple(it["dims"]), tuple(it["sizes"])
+    ops = ops_table()
+    npos = int(np.prod(sizes))
+    idx = ((np.arange(npos) * 7 + it["k"] * 3) % (NSPEC - 6)).reshape(sizes)  # two-bump spectra only
+    da, aux = build(dims, sizes, idx)
+    positions = list(itertools.product(*[range(n) for n in sizes]))
+    vals = da.values.copy()
+    vals[positions[0]] = np.nan
+    hole = positions[-1]
+    vals[hole + (2, 3)] = np.nan
+    da = da.copy(data=vals)
+    res = {"evals": 0, "n_nontrivial": 0, "violations": [], "samples": [], "outcomes": {}, "parts": {}}
+    for name, (fn, kind) in ops.items():
+        if it.get("op") and name != it["op"]:
+            continue
+        if name.startswith(("ptm", "bbox", "hp01")) or "partition" in name:
+            continue
+        full = c05.run_op(fn, da, aux)
+        res["evals"] += 1
+        if isinstance(full, Exception):
+            res["outcomes"]["missing:%s:raises" % name] = 1
+            continue  # operations that refuse missing values are out of scope here; C20 owns raising
+        for p in positions:
+            sub = da.isel({d: i for d, i in zip(dims, p)})
+            auxs = {k: v.isel({d: i for d, i in zip(dims, p)}) for k, v in aux.items()}
+            single = c05.run_op(fn, sub, auxs)
+            res["evals"] += 1
+            res["n_nontrivial"] += 1
+            if isinstance(single, Exception):
+                continue
+            try:
+                msg = c05.compare(sel_pos(full, list(dims), p), single, F32_DERIVED.get(name, 1e-10))
+            except Exception as e:  # noqa
+                msg = "cannot align batch and single results: %r" % e
+            if msg:
+                what = "land-point" if p == positions[0] else ("masked-bin" if p == hole else "complete-spectrum")
+                res["violations"].append(Violation(PROP, "%s|batch-position-equals-single-spectrum|missing-values,%s" % (name, what),
+                                                   "%s on layout %s%s with a land point stored first and a masked bin at the last position; position %s: %s" % (name, dims, sizes, p, msg),
+                                                   dict(kind="missing", dims=list(dims), sizes=list(sizes), k=it["k"], op=name)))
+                break
+    res["parts"]["missing-values"] = res["evals"]
+    return res
+
+
 def replay(case):
     common.load_wavespectra()
+    if case["kind"] == "missing":
+        return run_missing(dict(dims=case["dims"], sizes=[int(x) for x in case["sizes"]], k=int(case["k"]), op=case["op"]))["violations"]
     if case["kind"] == "layout":
         r = run_layout(dict(dims=tuple(case["dims"]), sizes=tuple(int(x) for x in case["sizes"]), k=int(case["k"])))
         return [v for v in r["violations"] if v.case.get("op") == case["op"]]
@@ -327,7 +380,7 @@ def run(rep, tier, seed, parts=None):
                 "distinct spectra (incl. zero, constant, peak-less, single-bin) with per-position wind and depth (all distinct, and a second field in which positions share wind speed/direction or depth); %d operations (all public "
                 "methods except hmax); for every position the batch result must equal the result on the extracted single spectrum (also with a non-spectral dimension stored after freq for the 1- and 2-dimension layouts), and "
                 "replacing one spectrum must leave every other position bitwise unchanged; all 900 ordered pairs of menu spectra on a "
-                "2-position layout (quick: 12 operations, thorough: all); Dataset accessor vs efth accessor for every operation. "
+                "2-position layout (quick: 12 operations, thorough: all); Dataset accessor vs efth accessor for every operation; 4 layouts with missing values (an all-NaN land point stored first, one masked interior bin) for every operation except the watershed methods. "
                 "Non-trivial = (operation, position) in a layout with more than one position / each ordered pair." % len(ops))
     rep.assumptions = ["partition methods are not applied to layouts that already have a 'part' dimension (their output dimension would collide)",
                        "gamma / alpha / fp are float64 values computed from float32 peak frequencies; numpy evaluates float32 powers of arrays and of single elements with different code paths, so they are compared at 2e-6 instead of 1e-10",
@@ -343,9 +396,12 @@ def run(rep, tier, seed, parts=None):
             items.append(dict(kind="pairs", dim=dim, rows=[a], ops=names))
     if parts is None or "dsacc" in parts:
         items.append(dict(kind="dsacc"))
+    if parts is None or "missing" in parts:
+        for k, (dims, sizes) in enumerate([(("site",), (3,)), (("time", "site"), (2, 3)), (("lat", "lon"), (2, 2)), (("site", "time"), (3, 2))]):
+            items.append(dict(kind="missing", dims=dims, sizes=sizes, k=k + seed))
 
     def dispatch(it):
-        return {"layout": run_layout, "pairs": run_pairs, "dsacc": run_dsacc}[it["kind"]](it)
+        return {"layout": run_layout, "pairs": run_pairs, "dsacc": run_dsacc, "missing": run_missing}[it["kind"]](it)
 
     for res in common.pmap(dispatch, items):
         rep.merge(res)
